@@ -70,7 +70,14 @@ def make_case(prop, seed, i, tier):
             t["auto"] = False
     spec["sim"]["auto_flag"] = flag
     spec["sim"]["absence"] = []
-    return dict(prop=prop, i=i, kind="equivalence", spec=spec, absence=absence_list(rng))
+    case = dict(prop=prop, i=i, kind="equivalence", spec=spec, absence=absence_list(rng))
+    r = rng.random()
+    if r < 0.35:
+        # the run with absence is paused and resumed with the same list (through a JSON file in a third
+        # of these cases) before the absence steps are deleted
+        case["pause"] = rng.choice([1, 2, 3, 5, 8, 13])
+        case["via_json"] = r < 0.12
+    return case
 
 
 def run_case(case):
@@ -138,7 +145,27 @@ def run_case(case):
     ready_logged_at_absence = False
     try:
         with I.tracing(tr):
-            B.run(m2.project, s2)
+            if case.get("pause"):
+                B.run(m2.project, s2, max_time=case["pause"])
+                if case.get("via_json"):
+                    h = Hist(s2, order=False, model=m2)
+                    ee = h.do(["saveload"])
+                    if ee is not None:
+                        res["aborted"] = ee
+                        return res
+
+                    class _M(object):
+                        project = h.p
+                    m2 = _M()
+                    res.count("C10.equivalence_paused_via_json")
+                    # (restored objects are new ones: the in-step monitor does not follow them)
+                    with I.tracing(I.Tracer([nt1])):
+                        B.run(m2.project, s2, initialize_state_info=False, initialize_log_info=False)
+                else:
+                    B.run(m2.project, s2, initialize_state_info=False, initialize_log_info=False)
+                res.count("C10.equivalence_paused_and_resumed")
+            else:
+                B.run(m2.project, s2)
             for t in m2.project.workflow.task_list:
                 for a in L:
                     if a < len(t.state_record_list) and t.state_record_list[a] == M.TS.READY:
